@@ -232,8 +232,7 @@ mod verif_kani_token {
         let s = [RANK_CH[a as usize], RANK_CH[a as usize], b':', w];
         let want = if w == b'0' { 0.0 } else { 1.0 };
         assert!(HandRangeToken::from_str(unsafe { std::str::from_utf8_unchecked(&s) }) == Ok(HandRangeToken::new(HandRangeTokenKind::SingleRankPair(RankPair::Pocket(rank_of(a))), want)));
-        let s = [RANK_CH[a as usize], RANK_CH[a as usize], b':', b'1', b'.', b'5'];
-        assert!(HandRangeToken::from_str(unsafe { std::str::from_utf8_unchecked(&s) }).is_err());
+        // (that a weight above 1 such as ":1.5" is rejected is C10's obligation, not C05's: tok_wf_weighted_pocket)
     }
 
     // ---- C05: the ':weight' suffix is carried by EVERY token shape (exactly: the value parse_probability gives for
